@@ -15,12 +15,16 @@ func main() {
 	n := flag.Int("n", 300, "programs")
 	show := flag.Int("show", 3, "rejected programs to show")
 	showOK := flag.Int("showok", 0, "accepted programs to show")
+	anywrap := flag.Bool("anywrap", false, "measure the any-wrapping family instead of the generator")
 	flag.Parse()
 	acc, ends := 0, map[string]int{}
 	errs := map[string]int{}
 	for i := 0; i < *n; i++ {
 		r := prng.Derive(7, uint64(i))
 		sc := work.Generated(r, work.SwarmOpts(r), "X", 7, i)
+		if *anywrap {
+			sc.Program, sc.Events, sc.Inputs = work.AnyWrap(r), nil, nil
+		}
 		res := core.RunL1(sc, core.L1Opts{Budget: 20000})
 		if res.Accepted {
 			acc++
